@@ -97,6 +97,32 @@ func TypedUniverses() []*Univ {
 	us = append(us, MakeUniv("ListLike[SetLike[int]]", []col.ListLike[col.SetLike[int]]{LL.Make(), LL.MakeFromArray([]col.SetLike[int]{S.Make()}), LL.MakeFromArray([]col.SetLike[int]{S.MakeFromArray([]int{1})}),
 		LL.MakeFromArray([]col.SetLike[int]{S.MakeFromArray([]int{1}), S.Make()}), LL.MakeFromArray([]col.SetLike[int]{S.Make(), S.MakeFromArray([]int{1})}), LL.MakeFromArray([]col.SetLike[int]{nil}),
 		LL.MakeFromArray([]col.SetLike[int]{S.MakeFromArray([]int{0, 1})})}))
+	// Maps reached through a static interface type (not through `any`): an element of
+	// type MapLike is still a Map, compared and ranked regardless of insertion order
+	mkM := func(kv ...any) col.MapLike[string, int] {
+		m := M.Make()
+		for i := 0; i+1 < len(kv); i += 2 {
+			m.SetValue(kv[i].(string), kv[i+1].(int))
+		}
+		return m
+	}
+	abc := func() col.MapLike[string, int] { return mkM("a", 1, "b", 2, "c", 3, "d", 4, "e", 5) }
+	cba := func() col.MapLike[string, int] { return mkM("e", 5, "d", 4, "c", 3, "b", 2, "a", 1) }
+	abx := func() col.MapLike[string, int] { return mkM("a", 1, "b", 2, "c", 3, "d", 4, "e", 6) }
+	LM := col.List[col.MapLike[string, int]](notation)
+	us = append(us, MakeUniv("ListLike[MapLike[string,int]]", []col.ListLike[col.MapLike[string, int]]{LM.Make(),
+		LM.MakeFromArray([]col.MapLike[string, int]{mkM()}), LM.MakeFromArray([]col.MapLike[string, int]{abc()}), LM.MakeFromArray([]col.MapLike[string, int]{cba()}),
+		LM.MakeFromArray([]col.MapLike[string, int]{abx()}), LM.MakeFromArray([]col.MapLike[string, int]{abc(), cba()}), LM.MakeFromArray([]col.MapLike[string, int]{cba(), abc()}),
+		LM.MakeFromArray([]col.MapLike[string, int]{mkM("a", 1)}), LM.MakeFromArray([]col.MapLike[string, int]{abc(), abx()})}))
+	us = append(us, MakeUniv("[]MapLike[string,int]", [][]col.MapLike[string, int]{{}, {mkM()}, {abc()}, {cba()}, {abx()}, {abc(), cba()}, {cba(), abc()}, {mkM("a", 1)}, {abx(), abc()}}))
+	CM := col.Catalog[string, col.MapLike[string, int]](notation)
+	mkCM := func(k string, m col.MapLike[string, int]) col.CatalogLike[string, col.MapLike[string, int]] {
+		c := CM.Make()
+		c.SetValue(k, m)
+		return c
+	}
+	us = append(us, MakeUniv("CatalogLike[string,MapLike[string,int]]", []col.CatalogLike[string, col.MapLike[string, int]]{CM.Make(), mkCM("k", mkM()), mkCM("k", abc()), mkCM("k", cba()), mkCM("k", abx()), mkCM("j", abc()), mkCM("k", mkM("a", 1))}))
+	us = append(us, MakeUniv("map[string]MapLike[string,int]", []map[string]col.MapLike[string, int]{{}, {"k": mkM()}, {"k": abc()}, {"k": cba()}, {"k": abx()}, {"j": abc()}, {"k": abc(), "j": cba()}, {"j": abc(), "k": cba()}}))
 	return us
 }
 
@@ -199,7 +225,7 @@ func AnyUniverse(block int) *Univ {
 
 // NumTyped is the number of typed corner universes; it is a constant so that
 // no repository code runs while the binary initialises (UniverseByIndex checks it).
-const NumTyped = 35
+const NumTyped = 39
 
 // NumUniverses is the number of corner universes (typed + three any blocks).
 func NumUniverses() int { return NumTyped + 3 }
